@@ -64,6 +64,15 @@ Wrap(c, l)  == [d \in Dims |-> (c[d] + 4 * Side(l)) % Side(l)]
 \* floor division by two, also for negative coordinates (images outside the box)
 FloorHalf(x) == IF x >= 0 THEN x \div 2 ELSE 0 - ((1 - x) \div 2)
 
+\* floor division by a positive n, also for negative x
+FloorDiv(x, n) == IF x >= 0 THEN x \div n ELSE 0 - ((n - 1 - x) \div n)
+(* Periodic images.  The cell reached from c by the offset o lies in the   *)
+(* copy of the box numbered ImageOf(c, o, l) (per dimension -1, 0 or 1 for *)
+(* neighbour offsets): a kernel that works on positions must see the       *)
+(* particles of the wrapped cell displaced by that many box widths         *)
+(* (src/utils/tbfperiodicshifter.hpp).                                     *)
+ImageOf(c, o, l) == [d \in Dims |-> FloorDiv(c[d] + o[d], Side(l))]
+
 Offsets(r) == [Dims -> (0-r)..r]
 
 (* Position codes: base-7 digits (offset+3) for transfer offsets, base-3   *)
